@@ -5,7 +5,8 @@
 use quantities::prelude::*;
 
 /// Reference unit carries an SI prefix: best-fit only considers prefixed
-/// units.  Three units share scale one.
+/// units.  Three units share scale one.  The order of the prefixes is not the
+/// order of the scales (MILLI 0.05 above CENTI 0.01).
 #[quantity]
 #[ref_unit(Mega_Alpha, "Ma", MEGA, "reference unit")]
 #[unit(Alpha_B, "ab", 0.4)]
@@ -16,6 +17,7 @@ use quantities::prelude::*;
 #[unit(Alpha_One, "a1", 1)]
 #[unit(Alpha_Uno, "a1b", NONE, 1.0)]
 #[unit(Kilo_Alpha, "ka", KILO, 0.001)]
+#[unit(Milli_Alpha, "mla", MILLI, 0.05)]
 pub struct SynA {}
 
 /// Reference unit without prefix, written in the middle; a tie at 12; one
@@ -112,6 +114,7 @@ pub struct SynS {}
 #[unit(Lay, "lay", 31.000000000000004)]
 #[unit(Laz, "laz", 31)]
 #[unit(Lba, "lab", 37)]
+#[unit(Lmu, "μl", 41)]
 pub struct SynL {}
 
 /// More than thirty-two units (an unstable sort starts to reorder there), two
